@@ -325,6 +325,16 @@ def seek_searches(ctx, rule='C08.seek-searches'):
     return res
 
 
+def _calls_into(ctx, fn, bb, target):
+    """does the call at bb go to `target`, directly or through crate functions?"""
+    c = callee_of(fn.term(bb))
+    if not c:
+        return False
+    F = ctx.facts
+    tg = F.by_path.get((c.get('resolved') or {}).get('path') or c['path'])
+    return tg is not None and (tg is target or target in F.reachable_fns([tg]))
+
+
 def start_compare(ctx, rule='C08.start-compare'):
     """in each payload arm of the start bound the skip decision compares the CURRENT key with the bound"""
     res = []
@@ -341,6 +351,7 @@ def start_compare(ctx, rule='C08.start-compare'):
     du = ctx.du(fn)
     if not sws:
         return [floor(rule, 'matches on start_bound()', 0, 1)]
+    sk = ctx.A.get('Cursor::seek')
     VAR = {0: 'Included', 1: 'Excluded', 2: 'Unbounded'}
     for (cb, l, sb, tg, oth) in sws:
         targets = {name: tg.get(vi, oth) for vi, name in VAR.items()}
@@ -357,7 +368,35 @@ def start_compare(ctx, rule='C08.start-compare'):
                 pay_side = [i for i, (locs, atoms) in enumerate(deps) if l in locs]
                 if cur_side and pay_side and set(cur_side) != set(pay_side) or (cur_side and pay_side and len(cur_side) + len(pay_side) >= 2 and cur_side != pay_side):
                     good = True
-            if good:
+            # ... and no path through the arm gets to the first step of the iteration without having searched for the bound.  (Nothing sorts before the empty key, so an
+            # *inclusive* empty bound may skip the search; an exclusive one still has to step over the empty key itself.)
+            skipped = None
+            if good and sk is not None:
+                j = targets['Unbounded']
+                hops = 0
+                while fn.term(j)['k'] == 'goto' and not fn.blocks[j]['stmts'] and hops < 8:
+                    j = fn.succ(j)[0]
+                    hops += 1
+                seeks = {b for b in region if fn.term(b)['k'] == 'call' and _calls_into(ctx, fn, b, sk)}
+                ends = {j} | {b for b in region if fn.term(b)['k'] == 'return'}
+                if seeks:
+                    free = fn.reach_from([targets[name]], avoid=seeks | set(others))
+                    if free & ends:
+                        empt = set()
+                        if name == 'Included':
+                            for b in free:
+                                t = fn.term(b)
+                                if t['k'] == 'switch':
+                                    locs, atoms = du.slice_operand(t['discr'])
+                                    if l in locs and any(a[0] == 'call' and last_seg(strip_generics(a[2])) in ('is_empty', 'len') for a in atoms):
+                                        empt.add(b)
+                        if not empt or (fn.reach_from([targets[name]], avoid=seeks | set(others) | empt) & ends):
+                            skipped = sorted(free & ends)[0]
+            if skipped is not None:
+                res.append(bad(rule, '%s | start %s arm can begin the scan without searching for the bound' % (fn.qual, name),
+                               'a path through the %s arm of the start bound reaches the first step of the scan (%s) without a seek to the bound: the scan then starts at the first entry '
+                               'of the bucket whatever the bound is' % (name, fn.loc(skipped)), where=fn.loc(targets[name])))
+            elif good:
                 res.append(ok(rule, 'start bound %s: the skip decision compares the current entry\'s key with the bound' % name, sites=1))
             else:
                 res.append(bad(rule, '%s | start %s arm does not compare the current key with the bound' % (fn.qual, name),
@@ -504,6 +543,7 @@ def seek_reset(ctx, rule='C08.seek-reset'):
     n = 0
     from flow import Prov
     sr0 = ctx.A.get('search-role')
+    setters = {fl: {g for g in F.fns if any(s2['rv']['k'] == 'use' and op_const_val(s2['rv']['op']) == 1 for bb, si, s2 in stores_to_field(g, 'Cursor', fl))} for fl in handed}
     for fn in sorted(F.fns, key=lambda g: g.path):
         st = stores_to_field(fn, 'Cursor', 'stack')
         if not st and sr0 is not None and fn.kind != 'Closure':
@@ -528,6 +568,26 @@ def seek_reset(ctx, rule='C08.seek-reset'):
                 resets = [bb for bb, si, s2 in stores_to_field(Y, 'Cursor', fl)]
             rets = [b for b in Y.reach_from([0], avoid=set(resets)) if Y.term(b)['k'] == 'return']
             if resets and not rets:
+                # ... and nothing sets the flag again behind the reset: a `self.next()` used to step off an empty leaf marks the new position as already handed out
+                again = None
+                if fl in handed:
+                    for b2 in Y.reachable_blocks():
+                        t2 = Y.term(b2)
+                        sets = any(s3['rv']['k'] == 'use' and op_const_val(s3['rv']['op']) == 1 for bq, sq, s3 in stores_to_field(Y, 'Cursor', fl) if bq == b2)
+                        if not sets and t2['k'] == 'call':
+                            c2 = callee_of(t2)
+                            tg = F.by_path.get((c2.get('resolved') or {}).get('path') or c2['path']) if c2 else None
+                            if tg is not None and any(g in setters[fl] for g in F.reachable_fns([tg])):
+                                sets = tg.qual
+                        if sets and any(Y.term(b3)['k'] == 'return' for b3 in Y.reach_from(Y.succ(b2), avoid=set(resets) - {b2})):
+                            again = (b2, sets)
+                            break
+                if again is None:
+                    continue
+                okk = False
+                res.append(bad(rule, '%s | next_called set again after the reset' % fn.qual,
+                               '%s clears `%s` but then %s at %s and can return with the flag set: the first next() after the seek steps over the entry the cursor was '
+                               'positioned on' % (fn.qual, fl, 'stores true' if again[1] is True else 'calls %s, which sets it' % again[1], Y.loc(again[0])), where=Y.loc(again[0])))
                 continue
             okk = False
             if fl == 'next_called' or (len(written) == 1 and fl in handed):
